@@ -26,6 +26,10 @@ SingleSeedSet == {<<s, "vers:" \o s \o "/" \o o \o SeedTable[s][1][2], SeedTable
 \* constraints have been looked at, and still every constraint version has to be validated
 ExclSeedSet == {<<s, "vers:" \o s \o "/!=" \o SeedTable[s][1][2] \o "|!=" \o SeedTable[s][2][2] \o "|!=" \o SeedTable[s][3][2], SeedTable[s][1][2]>> : s \in SeedSchemes}
 
+\* golang versions with build metadata: what follows the "+" is part of the version and has to be validated too
+GoBuildSeedSet == {<<"golang", "vers:golang/>=v2.0.0+incompatible|<v3.0.0+meta.1", "v2.1.0+incompatible">>,
+                   <<"golang", "vers:golang/!=v2.0.0+incompatible", "v2.0.1">>}
+
 NearMiss == {"debian", "go", "semver", "Npm", "npm2", "", "np m", "rubygems", "python", "deb.", "DEB", "n"}
 NearMissSet == {<<"npm", "vers:" \o n \o "/>=1.0.0|<2.0.0", "1.5.0">> : n \in NearMiss}
 
